@@ -359,8 +359,11 @@ void hbSyncObj(const void* obj, bool acquire, bool release)
 // ------------------------------------------------------------------ thread table
 SThread* threadByReal(pthread_t p)
 {
+	// The OS reuses thread identifiers: once a thread has been joined (or has finished detached) its identifier is free and
+	// soon names a new thread. A stale copy of it must therefore resolve to the thread that owns the identifier now -
+	// that is what pthread_detach / pthread_join / pthread_cancel on a stale handle hit in a real process.
 	for (auto& t : g.threads)
-		if (t.hasReal && pthread_equal(t.real, p))
+		if (t.hasReal && pthread_equal(t.real, p) && !t.joined && !(t.detached && t.st == SThread::FINISHED))
 			return &t;
 	return nullptr;
 }
